@@ -2,6 +2,8 @@ import Sx.Lemmas.RxReady
 import Sx.Lemmas.RxCovers
 import Sx.Sys
 import Sx.Props.C02
+import Sx.Lemmas.RxObs
+import Sx.Lemmas.RunP
 /-
   C03 — FSK/OOK reception delivers each packet exactly once, byte-exact.
 
@@ -68,7 +70,7 @@ theorem rx_invocation (fuel : Nat) (hfuel : 64 ≤ fuel) (hdr P : List UInt8) (h
   rw [gwp_bind, gwp_swrite]
   intro r2 g2 hr2
   have hv1 : RxInv hdr P h { g0 with irq := v } :=
-    ⟨hv0.cfg.of_same ⟨rfl, rfl, rfl, rfl, rfl, rfl, rfl⟩ rfl rfl rfl rfl rfl, hv0.gi.irq v, hv0.phase.of_eq rfl rfl rfl rfl, hv0.kept⟩
+    ⟨hv0.cfg.of_same ⟨rfl, rfl, rfl, rfl, rfl, rfl, rfl⟩ rfl rfl rfl rfl rfl rfl, hv0.gi.irq v, hv0.phase.of_eq rfl rfl rfl rfl, hv0.kept⟩
   have hs01 : g.Same { g0 with irq := v } := hs0.trans ⟨rfl, rfl, rfl, rfl, rfl, rfl, rfl⟩
   rcases rx_write3f hv1.gi.live v r2 g2 hr2 with ⟨ce, hre, _, hae⟩ | ⟨g1', hr2v, ha1, hg2⟩
   case inl => subst hre; exact contF hv1 hs01 hae
@@ -225,7 +227,7 @@ theorem rx_invocation (fuel : Nat) (hfuel : 64 ≤ fuel) (hdr P : List UInt8) (h
         obtain ⟨hv5, hs5, _, _⟩ := hv4.adv ha5
         dsimp only
         rw [gwp_modH]
-        exact cont _ _ (hv5.handle rfl rfl rfl rfl rfl rfl rfl) (hs04.trans hs5)
+        exact cont _ _ (hv5.handle rfl rfl rfl rfl rfl rfl rfl rfl) (hs04.trans hs5)
       split
       · exact rssi
       · split
@@ -378,6 +380,73 @@ theorem C03_step_on_chip_cached (hdr P : List UInt8) (c : SysCfg) (hc : c.cached
       exact ⟨h', g', sr.handle.trans e1, e2, fun hne => by rw [sr.chip]; exact e3 hne, sr.inv⟩
     | _ => exact absurd hsim.1 (by simp [ObsRel])
 
+/-- **C03 on the chip model, as observed.** The same as `C03_step_on_chip`, with the callbacks
+    the observation of the step shows: they are exactly what the invocation added to the ghost's
+    list — nothing while the packet is still being received or when it is dropped, the one
+    receive callback with exactly the payload and its length when it is delivered. -/
+theorem C03_step_on_chip_obs (hdr P : List UInt8) (c : SysCfg) (hc : c.cached = false) (hnr : c.NoReact)
+    (hfuel : 64 ≤ c.fuel) (s : Sys) (h : Handle) (g : RxG)
+    (hh : s.handle = some h) (hv : RxInv hdr P h g)
+    (hmod : h.activeModem = Gen.SX127x_MODULATION_FSK ∨ h.activeModem = Gen.SX127x_MODULATION_OOK)
+    (hchip : RxChip s.world.chip g) (hclean : g.faulted = false) :
+    match s.step c (.api .irq [] []) with
+    | (s', .ret _ cbs _) => ∃ h' g', s'.handle = some h' ∧ RxPost hdr P g g' h' ∧
+        (g'.ended = false → RxChip s'.world.chip g' ∧ g'.faulted = false) ∧
+        g'.cbs = g.cbs ++ cbs.map (·.ev)
+    | (_, .ub _) => True
+    | (_, _) => False := by
+  unfold Sys.step
+  dsimp only
+  rw [if_neg (by simp [hh])]
+  have hw0 : rxAbs (opWorldRx s.world s.world.cache) g ∧ CbsTie rxK g.cbs (opWorldRx s.world s.world.cache) g :=
+    ⟨Or.inr (Or.inr ⟨hchip, rfl, rfl, hclean⟩), Or.inr (by show g.cbs = g.cbs ++ _; simp [opWorldRx])⟩
+  simp only [hh, Option.getD_some]
+  unfold exec
+  rw [onCb_noReact' hnr]
+  generalize hout : execG c.toCfg.cached logCb (Api.prog c.cap c.fuel Api.irq h) _ = out
+  have hex : OutcomeP (fun w g' => rxAbs w g' ∧ CbsTie rxK g.cbs w g') (fun g' rh => RxPost hdr P g g' rh.2) out := by
+    rw [← hout]
+    have hcc : c.toCfg.cached = false := hc
+    rw [hcc]
+    exact execG_gwp' rxE false logCb _
+      (covers_cbs rxE rxK false logCb rxAbs (rx_covers _) (fun e h w h' w' ho => by cases ho; rfl) g.cbs)
+      (Api.prog c.cap c.fuel .irq h) g _ (rx_api_irq c.cap c.fuel hfuel hdr P h g hv hmod) _ hw0
+  cases out with
+  | ub u w => trivial
+  | done rh w =>
+    obtain ⟨r, h'⟩ := rh
+    obtain ⟨g', ⟨hab, htie⟩, hpost⟩ := hex
+    have hcbs : g'.cbs = g.cbs ++ (w.cbs.reverse).map (·.ev) := by
+      rcases htie with hb | ht
+      · have hb' : g'.poison = true := hb
+        rw [hpost.1] at hb'; cases hb'
+      · have ht' : g'.cbs = g.cbs ++ (w.cbs.map (·.ev)).reverse := ht
+        rw [ht', List.map_reverse]
+    refine ⟨h', g', rfl, hpost, fun hne => ?_, hcbs⟩
+    have hw := rxAbs_live ⟨hpost.1, hne⟩ hab
+    refine ⟨?_, hw.clean⟩
+    show RxChip (w.sched.foldl _ w.chip) g'
+    rw [hw.nosched]
+    exact hw.chip
+
+/-- what the application sees of one invocation while a packet is received on the chip model:
+    no callback, or exactly the receive callback with the payload -/
+theorem C03_observed_callbacks (hdr P : List UInt8) (c : SysCfg) (hc : c.cached = false) (hnr : c.NoReact)
+    (hfuel : 64 ≤ c.fuel) (s : Sys) (h : Handle) (g : RxG)
+    (hh : s.handle = some h) (hv : RxInv hdr P h g)
+    (hmod : h.activeModem = Gen.SX127x_MODULATION_FSK ∨ h.activeModem = Gen.SX127x_MODULATION_OOK)
+    (hchip : RxChip s.world.chip g) (hclean : g.faulted = false) (s' : Sys) (r : Except Code Out) (cbs : List CbRec)
+    (bus : List BusEv) (hstep : s.step c (.api .irq [] []) = (s', .ret r cbs bus)) :
+    cbs.map (·.ev) = [] ∨ (cbs.map (·.ev) = [.rx P P.length] ∧ (g.crcOn = true → g.crcGood = true)) := by
+  have := C03_step_on_chip_obs hdr P c hc hnr hfuel s h g hh hv hmod hchip hclean
+  rw [hstep] at this
+  obtain ⟨h', g', _, hpost, _, hcbs⟩ := this
+  obtain ⟨_, hcase⟩ := hpost
+  rcases hcase with ⟨_, e, _⟩ | ⟨_, e, hcrc, _⟩ | ⟨_, _, e, _⟩
+  · left; rw [e] at hcbs; exact (List.append_cancel_left (by simpa using hcbs.symm : g.cbs ++ cbs.map (·.ev) = g.cbs ++ [])).trans rfl
+  · right; rw [e] at hcbs; exact ⟨(List.append_cancel_left hcbs).symm, hcrc⟩
+  · left; rw [e] at hcbs; exact (List.append_cancel_left (by simpa using hcbs.symm : g.cbs ++ cbs.map (·.ev) = g.cbs ++ []))
+
 /-- the start of a packet: the handle in its reset state (as `create`, a delivery or a drop
     leave it), the FIFO empty, the whole frame still on the air -/
 theorem rx_start (hdr P : List UInt8) (h : Handle) (g : RxG) (hc : RxCfg hdr P h g)
@@ -398,7 +467,7 @@ theorem rx_start (hdr P : List UInt8) (h : Handle) (g : RxG) (hc : RxCfg hdr P h
 example : RxInv [2] [7, 9]
     { opmod := Gen.SX127x_MODE_RX_CONT, rxCb := true, packet := Mem.zeros 16, format := Gen.SX127X_VARIABLE, crcType := Gen.SX127X_CRC_CCITT }
     { pending := [2, 7, 9], cfg1 := 0x98 } := by
-  refine rx_start _ _ _ _ ⟨Or.inl rfl, rfl, by decide, by decide, ?_, ?_⟩ rfl rfl ⟨rfl, rfl⟩ rfl rfl rfl rfl rfl rfl
+  refine rx_start _ _ _ _ ⟨Or.inl rfl, Or.inl rfl, rfl, by decide, by decide, ?_, ?_⟩ rfl rfl ⟨rfl, rfl⟩ rfl rfl rfl rfl rfl rfl
   · exact Or.inl ⟨rfl, 2, [], rfl, by decide, by decide⟩
   · constructor
     · intro _; decide
@@ -415,5 +484,100 @@ example : rxR { pending := [2, 7, 9], cfg1 := 0x98 } (.rread 0x3f) (.u8 (.ok 0x0
   refine ⟨rfl, ?_⟩
   unfold RxFlagsOk
   decide
+
+/-! ### a reception on the chip model, step by step -/
+
+theorem RxG.arrive_faulted (g : RxG) (k : Nat) (fin : Bool) : (g.arrive k fin).faulted = g.faulted := by
+  unfold RxG.arrive
+  repeat (first | rfl | split | dsimp only)
+
+/-- a reception in progress on the chip model: the handle and the chip agree with the ghost state
+    `g` of the receive environment (which holds the frame's bytes still on the air, the FIFO
+    content, what the host has taken so far, and the callbacks made) -/
+structure Receiving (hdr P : List UInt8) (s : Sys) (g : RxG) : Prop where
+  handle : ∃ h, s.handle = some h ∧ RxInv hdr P h g
+  chip : RxChip s.world.chip g
+  clean : g.faulted = false
+
+/-- **the next byte of the frame arrives** (between two operations of the host, FIFO not full) -/
+theorem Receiving.byte {hdr P s g} (c : SysCfg) (hr : Receiving hdr P s g) (b : UInt8) (rest : List UInt8)
+    (hp : g.pending = b :: rest) (hroom : g.fifo.length ≤ 62) :
+    Receiving hdr P (s.step c (.env (.rxByte b))).1 (g.arrive 1 false) ∧ (s.step c (.env (.rxByte b))).2 = .env := by
+  obtain ⟨h, hh, hv⟩ := hr.handle
+  obtain ⟨hc', hadm⟩ := env_rxByte hr.chip b rest hp hroom
+  refine ⟨⟨⟨h, hh, (hv.adv ⟨1, false, hadm, rfl⟩).1⟩, hc', ?_⟩, rfl⟩
+  rw [RxG.arrive_faulted]; exact hr.clean
+
+/-- **the demodulator signals the end of the packet** (all bytes have arrived; CrcAutoClearOff as
+    the driver configures it) -/
+theorem Receiving.fin {hdr P s g} (c : SysCfg) (hr : Receiving hdr P s g)
+    (hp : g.pending = []) (ho : g.over = false) (hauto : g.cfg1 &&& 0x08 ≠ 0) :
+    Receiving hdr P (s.step c (.env (.rxEnd g.crcGood))).1 (g.arrive 0 true) ∧ (s.step c (.env (.rxEnd g.crcGood))).2 = .env := by
+  obtain ⟨h, hh, hv⟩ := hr.handle
+  have hc' := env_rxEnd hr.chip hp ho hauto
+  have hadm : g.Adm 0 := ⟨Nat.zero_le _, by have := hr.chip.room; omega⟩
+  refine ⟨⟨⟨h, hh, (hv.adv ⟨0, true, hadm, rfl⟩).1⟩, hc', ?_⟩, rfl⟩
+  rw [RxG.arrive_faulted]; exact hr.clean
+
+/-- **the host runs the interrupt handler** (uncached build, no application reaction): either the
+    reception goes on and the application saw nothing, or this invocation delivered exactly the
+    payload — once, with its length, and only with a good CRC —, or the packet was dropped for
+    its CRC and the application saw nothing; in the last two cases the per-packet state is reset -/
+theorem Receiving.irq {hdr P s g} (c : SysCfg) (hc : c.cached = false) (hnr : c.NoReact) (hfuel : 64 ≤ c.fuel)
+    (hr : Receiving hdr P s g) :
+    match s.step c (.api .irq [] []) with
+    | (s', .ret _ cbs _) =>
+        (∃ g', Receiving hdr P s' g' ∧ cbs.map (·.ev) = [] ∧ g'.cbs = g.cbs ∧ g.over = false) ∨
+        (cbs.map (·.ev) = [.rx P P.length] ∧ (g.crcOn = true → g.crcGood = true) ∧
+          ∃ h', s'.handle = some h' ∧ h'.expected = 0 ∧ h'.received = 0) ∨
+        (cbs.map (·.ev) = [] ∧ g.crcOn = true ∧ g.crcGood = false ∧
+          ∃ h', s'.handle = some h' ∧ h'.expected = 0 ∧ h'.received = 0)
+    | (_, .ub _) => True
+    | (_, _) => False := by
+  obtain ⟨h, hh, hv⟩ := hr.handle
+  have := C03_step_on_chip_obs hdr P c hc hnr hfuel s h g hh hv hv.cfg.modem hr.chip hr.clean
+  generalize hst : s.step c (.api .irq [] []) = st at this
+  obtain ⟨s', o⟩ := st
+  cases o with
+  | ub u => trivial
+  | skipped => exact this
+  | env => exact this
+  | ret r cbs bus =>
+    obtain ⟨h', g', hh', hpost, hch, hcbs⟩ := this
+    obtain ⟨hpois, hcase⟩ := hpost
+    have cancel : ∀ l : List CbEvent, g'.cbs = g.cbs ++ l → g.cbs ++ cbs.map (·.ev) = g.cbs ++ l := fun l e => by rw [← hcbs, e]
+    rcases hcase with ⟨hend, e, hinv, hov, hsame⟩ | ⟨hend, e, hcrc, he, hrc⟩ | ⟨hwhy, hend, e, he, hrc, _⟩
+    · obtain ⟨hchip', hcl'⟩ := hch hend
+      left
+      refine ⟨g', ⟨⟨h', hh', hinv⟩, hchip', hcl'⟩, ?_, e, ?_⟩
+      · exact List.append_cancel_left (cancel [] (by rw [e]; simp))
+      · rcases hov with h1 | h1
+        · exact h1
+        · rw [hcl'] at h1; cases h1
+    · right; left
+      exact ⟨List.append_cancel_left (cancel _ e), hcrc, h', hh', he, hrc⟩
+    · right; right
+      have hcl' := (hch hend).2
+      have hcrcbad : g.crcOn = true ∧ g.crcGood = false := by
+        rcases hwhy with h1 | h1
+        · exact h1
+        · rw [hcl'] at h1; cases h1
+      exact ⟨List.append_cancel_left (cancel [] (by rw [e]; simp)), hcrcbad.1, hcrcbad.2, h', hh', he, hrc⟩
+
+
+/-- non-vacuity: a chip in FSK receive mode (CRC on, variable length, threshold 31) with an empty
+    FIFO and a fresh handle is `Receiving` the frame `[2, 7, 9]` -/
+example : Receiving [2] [7, 9]
+    { world := { chip := { fsk := ((Mem.zeros 128).wr 0x30 0x98).wr 0x35 31 } },
+      handle := some { opmod := Gen.SX127x_MODE_RX_CONT, rxCb := true, packet := Mem.zeros 16,
+                       format := Gen.SX127X_VARIABLE, crcType := Gen.SX127X_CRC_CCITT } }
+    { pending := [2, 7, 9], cfg1 := 0x98 } := by
+  refine ⟨⟨_, rfl, ?_⟩, ?_, rfl⟩
+  · refine rx_start _ _ _ _ ⟨Or.inl rfl, Or.inl rfl, rfl, by decide, by decide, ?_, ?_⟩ rfl rfl ⟨rfl, rfl⟩ rfl rfl rfl rfl rfl rfl
+    · exact Or.inl ⟨rfl, 2, [], rfl, by decide, by decide⟩
+    · constructor
+      · intro _; decide
+      · intro _; decide
+  · exact ⟨rfl, by decide, by decide, by decide, by decide, by decide, by decide, by decide, by decide, by decide, by decide, by decide⟩
 
 end Sx
